@@ -162,6 +162,12 @@ def run_case(ctx, case):
             raise Skip('numerically_degenerate')
         if not (np.array_equal(gp.X, X) and np.array_equal(gp.Y, Y)):
             raise Violation('evidence-order', 'after the last update the surrogate evidence is not the concatenation of everything passed in')
+    # hyper-parameters driven to a degenerate value by the optimiser (lengthscale under/overflow, singular kernel matrix):
+    # the fitted GP is numerically meaningless; not judged, counted (DESIGN.md C10/C11 guards)
+    ell = float(np.ravel(gp._gp.kern.rbf.lengthscale)[0])
+    cond = float(np.linalg.cond(gp._gp.posterior.woodbury_inv))
+    if not (1e-100 < ell < 1e100) or not np.isfinite(cond) or cond > 1e13:
+        raise Skip('numerically_degenerate')
     ctx.event('gps_fitted')
     gp.is_sampling = False
     if case['thr_pct'] is None:
